@@ -2,6 +2,7 @@ package vuego
 
 import (
 	"fmt"
+	"regexp"
 	"sort"
 	"strings"
 	"sync"
@@ -10,6 +11,9 @@ import (
 	"github.com/expr-lang/expr/builtin"
 	"github.com/expr-lang/expr/vm"
 )
+
+// calledFuncRe matches the name of a called function (not a method: no leading dot).
+var calledFuncRe = regexp.MustCompile(`(?:^|[^\w.])([A-Za-z_]\w*)\s*\(`)
 
 // ExprEvaluator wraps expr for evaluating boolean and interpolated expressions.
 // It caches compiled programs to avoid recompilation.
@@ -69,13 +73,20 @@ func (e *ExprEvaluator) getProgram(expression string) (*vm.Program, error) {
 	// Compile the expression
 	options := []expr.Option{expr.AllowUndefinedVariables(), expr.DisableBuiltin("count")}
 	e.mu.RLock()
-	if len(e.functions) > 0 {
-		// Declare the template functions, so that the parser does not read e.g. sum(a, b)
-		// or map(x) as its own predicate built-ins.
-		declared := make(map[string]any, len(e.functions))
-		for _, name := range e.functions {
-			declared[name] = func(...any) (any, error) { return nil, nil }
+	// Declare the template functions that this expression CALLS, so that the parser does not
+	// read e.g. sum(a, b) or map(x) as its own predicate built-ins. Names that are merely used
+	// (a variable called title, type, json, ...) stay untyped variables.
+	var declared map[string]any
+	for _, m := range calledFuncRe.FindAllStringSubmatch(expression, -1) {
+		i := sort.SearchStrings(e.functions, m[1])
+		if i < len(e.functions) && e.functions[i] == m[1] {
+			if declared == nil {
+				declared = map[string]any{}
+			}
+			declared[m[1]] = func(...any) (any, error) { return nil, nil }
 		}
+	}
+	if declared != nil {
 		options = append([]expr.Option{expr.Env(declared)}, options...)
 	}
 	for _, name := range e.shadowed {
